@@ -32,11 +32,18 @@ for _f in sorted(glob.glob(os.path.join(os.path.dirname(os.path.abspath(__file__
 
 def generate(name, outdir):
     """(re)write outdir/<name>.v if its content changed; return (ok, message)."""
-    src, specs = KERNELS[name]
     path = os.path.join(outdir, name + '.v')
+    entry = KERNELS[name]
     try:
-        text = py2coq.translate_file(os.path.join(REPO, src), specs)
-    except (py2coq.Unsupported, SyntaxError, OSError) as e:
+        if callable(entry):
+            # custom generator (skeleton extractors): gen(repo_root) -> Coq text; must raise on anything
+            # it cannot classify (fail closed)
+            src = getattr(entry, 'SOURCE', name)
+            text = entry(REPO)
+        else:
+            src, specs = entry
+            text = py2coq.translate_file(os.path.join(REPO, src), specs)
+    except Exception as e:  # noqa: fail closed on every translator error
         # fail closed: leave a file that cannot compile, so every dependent obligation breaks
         text = '(* translation of %s failed: %s *)\nDefinition translation_failed : False := I.\n' % (src, e)
         old = open(path).read() if os.path.exists(path) else None
